@@ -55,6 +55,13 @@ BASES = [
     # 11: SimpleTaskPool unbounded, start 2 + start 2 with gates
     {"pools": [{"cls": "S", "size": None, "args": 2, "bodies": [{"pre": [G]}, {"pre": [Y(2)]}], "ecb": {}, "ccb": {}}],
      "steps": [{"op": "start", "pool": 0, "num": 2}, {"op": "y", "k": 2}, {"op": "start", "pool": 0, "num": 2}, {"op": "y", "k": 2}, {"op": "open", "sel": ["all"]}]},
+    # 12: N=2, more than ten task starts in one pool: apply 11 + apply 3 (two-digit task ids, tenth start, ...)
+    {"pools": [{"cls": "T", "size": 2}], "steps": [_apply(0, 11, bodies=[{"pre": [Y(1)]}], ecb={}), _apply(0, 3, bodies=[{"pre": [Y(2)]}], ccb={})]},
+    # 13: N=3, map len 13 nc 3 + apply 2
+    {"pools": [{"cls": "T", "size": 3}], "steps": [_map(0, "map", 13, 3, bodies=[{"pre": [Y(1)]}], ecb={}), _apply(0, 2, bodies=[{"pre": [Y(3)]}])]},
+    # 14: SimpleTaskPool N=2, start 6 + start 6
+    {"pools": [{"cls": "S", "size": 2, "args": 0, "bodies": [{"pre": [Y(1)]}], "ecb": {}, "ccb": {}}],
+     "steps": [{"op": "start", "pool": 0, "num": 6}, {"op": "y", "k": 2}, {"op": "start", "pool": 0, "num": 6}]},
 ]
 
 OPS = {
